@@ -270,8 +270,8 @@ add("s_push_aggregate_delay", SIM, SK, ["C19"], cap_s=900, mem_gb=16, group="s_p
     bounds="any network delay and blocked duration up to one hour, either side, any instant")
 for side in ("client", "server"):
     for when, tier in (("before", "quick"), ("at", "thorough"), ("after", "thorough"), ("tie", "thorough")):
-        add("s_pick_next_blocked_%s_%s" % (side, when), SIM, SK, ["C16", "C15", "C19"] if when != "before" else ["C16"], tier=tier,
-            cap_s=1800, mem_gb=24, group="s_pick_next_blocked_%s_%s" % (side, when), owner="C19",
+        add("s_pick_next_blocked_%s_%s" % (side, when), SIM, SK, ["C16", "C15", "C19"] if when in ("at", "after") else ["C16"], tier=tier,
+            cap_s=900 if when == "tie" else 1800, mem_gb=24, group="s_pick_next_blocked_%s_%s" % (side, when), owner="C19",
             encodes=["pick_next", "queue_peek::peek_queue", "queue_peek::peek_queue_earliest_side", "peek_blocked_exp",
                      "SimQueue::peek_blocking / pop"],
             bounds="the %s blocked until t0 + 5 s (both sides' bypass flags arbitrary), one TunnelSent packet (normal or padding, "
